@@ -103,7 +103,7 @@ def must_reject(op, length, cap):
         return None
     return None
 
-def orchestrator_oracles(ops, cls_size):
+def orchestrator_oracles(ops, cls_size, cls_align=8):
     """-> list of (kind, op index, text). kinds: reserve-contract, stable, align-req, macro-evals,
     rejected-unchanged, accept-predicate"""
     out = []
@@ -118,6 +118,13 @@ def orchestrator_oracles(ops, cls_size):
         hafter = op.H.get(r)
         res = op.result
         # --- alignment requested at creation follows the register until its buffer moves
+        if n == "with_alignment" and len(a) == 3 and res in ("ok", "err AlignmentTooSmall", "err AlignmentNotDivisibleByTwo", "panic"):
+            A = int(a[2])
+            acceptable = A >= max(cls_align, 8) and (A & (A - 1)) == 0 and A > 0
+            if acceptable and res.startswith("err"):
+                out.append(("with-alignment-result", i, "with_alignment(_, %d) is acceptable for this element type but returned `%s`" % (A, res)))
+            if not acceptable and not res.startswith("err"):
+                out.append(("with-alignment-result", i, "with_alignment(_, %d) must be reported through Err for this element type (align_of = %d), got `%s`" % (A, cls_align, res)))
         if n == "with_alignment" and res == "ok":
             req[r] = int(a[2])
         if n in ("split_off",) and len(a) > 1 and a[1] == "0":
@@ -139,6 +146,9 @@ def orchestrator_oracles(ops, cls_size):
                     out.append(("serde-prealloc", i, "`%s`: first allocator request of %d bytes exceeds header + 1024 elements (%d)" % (op.line[:60], sz, lim)))
             if before is not None and after is not None and after[1] > max(before[1], 2047):
                 out.append(("serde-prealloc", i, "`%s`: capacity %d -> %d" % (op.line[:60], before[1], after[1])))
+        # --- a vector that owns a block has a non-null data pointer: the raw round trip must not be skipped
+        if n in ("raw_part", "raw_parts") and res == "none" and hbefore is not None:
+            out.append(("rawparts-null", i, "`%s`: as_mut_ptr() is null although the vector owns block %s" % (op.line, hbefore.get("blk"))))
         if before is not None and after is None:
             # the register is borrowed by the iterator it just handed out (drain / splice / drain_filter) or was consumed
             mr0 = must_reject(op, before[0], before[1])
